@@ -167,6 +167,11 @@ func c17Cases(env vk.Env) []vk.Case {
 		k := k
 		cs = append(cs, vk.Case{ID: fmt.Sprintf("%s/poison/f%d/stop-%s/%d", pl.proto, pl.feeders, pl.stopAt, k), Run: func(t *vk.T) { c17Run(t, pl, 2000+k) }})
 	}
+	for k := 0; k < env.Pick(3, 12); k++ { // the other CMP protocols with a worker pool (parallel sections inside the rounds) under the race detector
+		pl := c17Plan{proto: []string{"cmp-presign", "cmp-keygen", "cmp-refresh"}[k%3], feeders: 1 + k%3, stopAt: []string{"none", "none", "none", "mid", "after"}[k%5], post: k % 3, usePool: true}
+		k := k
+		cs = append(cs, vk.Case{ID: fmt.Sprintf("%s/f%d/stop-%s/%d", pl.proto, pl.feeders, pl.stopAt, k), Run: func(t *vk.T) { c17Run(t, pl, 3000+k) }})
+	}
 	for k := 0; k < env.Pick(2, 16); k++ {
 		pl := c17Plan{proto: "cmp-sign", feeders: 2 + k%3, stopAt: []string{"none", "mid", "after", "twice"}[k%4], post: k % 5, usePool: true}
 		k := k
@@ -219,6 +224,27 @@ func c17Run(t *vk.T, pl c17Plan, idx int) {
 		msg := r.Bytes(32)
 		leaders = map[party.ID]bool{ids[0]: true, ids[1]: true}
 		start = map[party.ID]protocol.StartFunc{ids[0]: doerner.SignReceiver(dm.K.R, ids[0], ids[1], msg, nil), ids[1]: doerner.SignSender(dm.K.S, ids[1], ids[0], msg, nil)}
+	case "cmp-presign", "cmp-keygen", "cmp-refresh":
+		fx.InstallPrimeHook()
+		fx.SetPrimeOffset(uint64(r.Intn(1000)))
+		ids = ids[:2]
+		var cm *fx.CMPMat
+		if pl.proto != "cmp-keygen" {
+			cm = fx.NewCMPMatDealt(ids, 1)
+		}
+		start = map[party.ID]protocol.StartFunc{}
+		for _, id := range ids {
+			p := pool.NewPool(3)
+			pools = append(pools, p)
+			switch pl.proto {
+			case "cmp-presign":
+				start[id] = cmp.Presign(cm.Cfgs[id], ids, p)
+			case "cmp-keygen":
+				start[id] = cmp.Keygen(group, id, ids, 1, p)
+			case "cmp-refresh":
+				start[id] = cmp.Refresh(fx.CloneCMP(cm.Cfgs[id]), p)
+			}
+		}
 	case "cmp-sign":
 		fx.InstallPrimeHook()
 		fx.SetPrimeOffset(uint64(r.Intn(1000)))
@@ -385,7 +411,7 @@ func c17Run(t *vk.T, pl c17Plan, idx int) {
 	}()
 	// wait for the session to end: all handlers terminal and inboxes empty, or a generous wall-clock bound
 	deadline := time.Now().Add(4 * time.Minute)
-	if pl.proto == "cmp-sign" {
+	if strings.HasPrefix(pl.proto, "cmp-") {
 		deadline = time.Now().Add(15 * time.Minute)
 	}
 	ended := false
